@@ -16,6 +16,7 @@ import (
 	"time"
 
 	"connectrpc.com/conformance/internal"
+	"connectrpc.com/conformance/internal/tracer"
 	conformancev1 "connectrpc.com/conformance/internal/gen/proto/go/connectrpc/conformance/v1"
 	"golang.org/x/net/http2"
 )
@@ -61,6 +62,9 @@ type vfNopWriteCloser struct{ io.Writer }
 
 func (vfNopWriteCloser) Close() error { return nil }
 
+// vfServerTracer, when set, is handed to the next reference server started in reference mode.
+var vfServerTracer *tracer.Tracer
+
 func vfStartServer(req *conformancev1.ServerCompatRequest, referenceMode bool) (*vfServer, error) {
 	s := &vfServer{stderr: &vfSyncBuf{}, done: make(chan error, 1)}
 	if req.UseTls {
@@ -87,11 +91,12 @@ func vfStartServer(req *conformancev1.ServerCompatRequest, referenceMode bool) (
 	outR, outW := io.Pipe()
 	ctx, cancel := context.WithCancel(context.Background())
 	s.cancel = func() { cancel(); _ = inW.Close() }
+	tr := vfServerTracer
 	go func() {
 		var err error
 		args := []string{"referenceserver", "-port", "0", "-bind", "127.0.0.1"}
 		if referenceMode {
-			err = RunInReferenceMode(ctx, args, inR, outW, s.stderr, nil)
+			err = RunInReferenceMode(ctx, args, inR, outW, s.stderr, tr)
 		} else {
 			err = Run(ctx, args, inR, outW, s.stderr)
 		}
